@@ -368,6 +368,11 @@ impl PhysicalOperator for MemoryTableExec {
         // Use rayon to determine the number of CPU cores for parallel execution
         // For small tables, use fewer partitions to avoid overhead
         let total_rows: usize = self.batches.iter().map(|b| b.num_rows()).sum();
+        // Verification switch: let small test tables take the multi-partition path.
+        #[cfg(qe_verif)]
+        if crate::verif_hooks::switch("small_tables_partition") {
+            return std::cmp::min(rayon::current_num_threads(), self.batches.len()).max(1);
+        }
         if total_rows < 1000 {
             1 // Small table, single partition
         } else {
